@@ -249,6 +249,7 @@ def validateHostname (ipv6 : Bytes → Bool) (host : Bytes) : Bool :=
   else match host with
     | 0x5b :: _ =>
       if host.length < 2 || host.length - 2 ≥ INET6_ADDRSTRLEN' then false
+      else if host.getLast? != some 0x5d then false      -- the literal must be closed by ']'
       else ipv6 ((host.drop 1).take (host.length - 2))
     | _ => validateLabels (host.length + 1) host
 
